@@ -196,11 +196,13 @@ CLAIMED = {
     "C10": dict(
         text="Lean 4 theorems (any field): the shift/stretch coefficient transform of Polynomial/SPolynomial yields the coefficients "
              "of p((r−r₀)/s) for every degree, r₀ and s ≠ 0 of either sign (binomial theorem + sum exchange); Angular products are "
-             "polynomial products; cossin(m, n) holds the coefficients of x^m(1−x²)^{n/2}. Tie: Polynomial.func vs the Lean "
+             "polynomial products; cossin(m, n) holds the coefficients of x^m(1−x²)^{n/2}; and, over the reals, Polynomial.abel (coefficient "
+             "recursion C, Horner sum of a(k), the differences (y r^p)| and ln(r+y)|) is the Abel integral of Polynomial.func for every "
+             "degree, piece, shift, stretch and sample inside r_max (reduction formula of ∫ r^k dy by the fundamental theorem of calculus). Tie: Polynomial.func vs the Lean "
              "transform; Angular products/cossin vs the model. Oracle: func and abel of random pieces vs the polynomial and vs "
              "scipy line-of-sight quadrature (relative to term size), piecewise sums, scalar ops, copies, SPolynomial on 2-D grids, "
              "Angular algebra, Legendre series, B-spline conversion, ApproxGaussian tolerances.",
-        note="Partial: the closed-form Abel integrals (Polynomial.a recursion, SPolynomial.F) and ApproxGaussian's tolerance are "
+        note="Partial: the SPolynomial closed-form integrals (F recursion) and ApproxGaussian's tolerance are "
              "measured (quadrature / dense grid), not proved. Trusted: Lean kernel + standard axioms; scipy quad.",
         technique="Lean 4 proof (binomial theorem, finite-sum algebra) + differential correspondence + quadrature oracle",
         design="§3 C10"),
